@@ -80,13 +80,24 @@ enum End {
 
 /// Feed `stream` cut at `cuts` (sorted offsets) into decoders with buffers of `bufsize`.
 /// Returns Err(description) on the first disagreement with the model.
+/// The caller's buffer: `len` bytes long, sometimes with spare capacity behind it (a recycled
+/// Vec that was truncated) and old contents - only its length may matter.
+fn mk_buf(len: usize, salt: usize) -> Vec<u8> {
+    let spare = [0usize, 0, 1, 16, 4096, 3][salt % 6];
+    let fill = [0u8, 0xA5, 0xFF][(salt / 6) % 3];
+    let mut v = Vec::with_capacity(len + spare);
+    v.resize(len, fill);
+    v
+}
+
 fn feed(stream: &Stream, cuts: &[usize], bufsize: usize) -> Result<End, (String, String)> {
+    let salt = cuts.iter().sum::<usize>() + cuts.len() + bufsize;
     let total = stream.bytes.len();
     let mut bounds: Vec<usize> = Vec::with_capacity(cuts.len() + 2);
     bounds.push(0);
     bounds.extend_from_slice(cuts);
     bounds.push(total);
-    let mut dec = match StunPacketDecoder::new(vec![0u8; bufsize]) {
+    let mut dec = match StunPacketDecoder::new(mk_buf(bufsize, salt)) {
         Ok(d) => Some(d),
         Err(e) => {
             return if bufsize < 20 && e.buffer.len() == bufsize {
@@ -162,7 +173,7 @@ fn feed(stream: &Stream, cuts: &[usize], bufsize: usize) -> Result<End, (String,
                     consumed_sum += consumed;
                     data = &data[consumed..];
                     pk += 1;
-                    dec = Some(StunPacketDecoder::new(vec![0u8; bufsize]).map_err(|_| ("new-rejected".to_string(), String::new()))?);
+                    dec = Some(StunPacketDecoder::new(mk_buf(bufsize, salt + pk)).map_err(|_| ("new-rejected".to_string(), String::new()))?);
                     if pk == stream.packets.len() {
                         if !data.is_empty() {
                             return Err(("harness".into(), "leftover after last packet".into()));
@@ -308,6 +319,37 @@ pub fn run(ctx: &mut Ctx) {
         ctx.eval(Some(fnv64(&stream.bytes)));
     });
     ctx.exhaustive.insert(format!("all 3-cut chunkings of every generated stream <= {} bytes", lim3), ctx.only.is_none());
+
+    // the largest legal packets (header length 65,512 .. 65,532): small | big | small
+    let n = ctx.n(8, 400);
+    ctx.cases("near-64k", n, |ctx, case, rng| {
+        let attr = [65_512usize, 65_516, 65_520, 65_524, 65_528, 65_532, 65_532, 65_516][(case % 8) as usize];
+        let mut bytes = Vec::new();
+        let mut packets = Vec::new();
+        for a in [4 * rng.usize_below(6), attr, 4 * rng.usize_below(6)] {
+            let p = packet(rng, a);
+            packets.push((bytes.len(), p.len()));
+            bytes.extend_from_slice(&p);
+        }
+        let stream = Stream { bytes, packets, bad_header: None };
+        let total = stream.bytes.len();
+        let (s1, l1) = stream.packets[1];
+        for bs in [l1, l1 + 1, l1 - 1, l1 - 20, 65_535, 65_536 + 64] {
+            let mut expect = None;
+            run_chunking(ctx, &stream, &[], bs, &mut expect);
+            for cuts in [vec![s1], vec![s1 + 7], vec![s1 + 20], vec![s1 + 19, s1 + 21], vec![s1 + l1 - 1], vec![s1 + l1], vec![s1 + 3, s1 + 40_000, s1 + l1 + 5]] {
+                let cuts: Vec<usize> = cuts.into_iter().map(|c| c.min(total)).collect();
+                run_chunking(ctx, &stream, &cuts, bs, &mut expect);
+            }
+            for _ in 0..3 {
+                let mut cuts: Vec<usize> = (0..1 + rng.usize_below(5)).map(|_| rng.usize_below(total + 1)).collect();
+                cuts.sort();
+                run_chunking(ctx, &stream, &cuts, bs, &mut expect);
+            }
+        }
+        ctx.count("near-64k.streams");
+        ctx.eval(Some(fnv64(&stream.bytes[..64])));
+    });
 
     // random multi-cut chunkings of larger streams, incl. byte-by-byte
     let n = ctx.n(12_000, 1_500_000);
